@@ -70,7 +70,7 @@ def h_grid(f, N, P, mode='offline', spell=None, defs=None, reparse=None):
             # the bounds of f (in samples) written with explicit/default units; one sample every `scale` default units
             fa, fb, unit, scale, per = spell
             txt = 'out = ' + text_spelled(f, fa, fb)
-            sd = dt.make_spec('offline', txt, vs, unit=unit, period=tuple(per) + (0.1,))
+            sd = dt.make_spec('offline~', txt, vs, unit=unit, period=tuple(per) + (0.1,))
             disc = [p[1] for p in dt.offline(sd, w, N)]
             sc = ct.make_spec(mode, txt, vs, unit=unit)
             args = [[v, [[k * scale, w[v][k]] for k in range(N)]] for v in vs]
@@ -95,7 +95,7 @@ def h_grid(f, N, P, mode='offline', spell=None, defs=None, reparse=None):
             scale = None
             txt = 'out = ' + text_scaled(f, P)
             period = None if P == 1 else (int(P * 1000), 'ms', 0.1)
-            sd = dt.make_spec('offline', txt, vs, period=period)
+            sd = dt.make_spec('offline~', txt, vs, period=period)
             disc = [p[1] for p in dt.offline(sd, w, N, [float(k * P) for k in range(N)])]
             sc = ct.make_spec(mode, txt, vs)
             args = [[v, [[float(k * P), w[v][k]] for k in range(N)]] for v in vs]
